@@ -80,6 +80,20 @@ def run_one(case):
             shutil.copy(os.path.join(REPO, "tests", "data", "lz4.7z" if case.get("variant", 0) % 2 == 0 else "lzma2bcj2.7z"), arc)
         elif cond == "exists":
             shutil.copy(good, arc)
+        elif cond == "intact-empty":
+            with py7zr.SevenZipFile(arc, "w"):
+                pass
+        elif cond == "intact-dirs":
+            os.makedirs(os.path.join(wd, "only", "a", "b"))
+            os.makedirs(os.path.join(wd, "only", "c"))
+            with py7zr.SevenZipFile(arc, "w") as z:
+                z.writeall(os.path.join(wd, "only"), "only")
+        elif cond == "stored-damaged":
+            with py7zr.SevenZipFile(arc, "w", filters=[{"id": py7zr.FILTER_COPY}]) as z:
+                z.writeall(src, "src")
+            raw2 = bytearray(open(arc, "rb").read())
+            raw2[32 + [3, 40, 150][case.get("variant", 0) % 3]] ^= 0x01       # inside the stored data: only a member CRC can notice
+            open(arc, "wb").write(raw2)
         out = os.path.join(wd, "out")
         if cmd == "i":
             ev["exit"], so, se = cli(["i"], wd)
@@ -97,6 +111,10 @@ def run_one(case):
                     names, data = lib_members(py7zr, arc)
                 else:
                     import multivolumefile
+                    want_vol = {"vol-digits": 4096, "vol-b": 4096, "vol-k": 4096, "vol-m": 1 << 20, "vol-g": 1 << 30}[opt]
+                    vols = sorted(glob.glob(arc + ".[0-9][0-9][0-9][0-9]"))
+                    sizes = [os.path.getsize(v) for v in vols]
+                    vol_ok = bool(vols) and all(x == want_vol for x in sizes[:-1]) and 0 < sizes[-1] <= want_vol
                     with multivolumefile.MultiVolume(arc, mode="rb", ext_digits=4) as mv:
                         with py7zr.SevenZipFile(mv) as z:
                             names = z.getnames()
@@ -104,6 +122,9 @@ def run_one(case):
                             z.extractall(factory=fac)
                             data = {n: p.read() for n, p in fac.products.items()}
                 ev["effect_ok"] = "src/d1/d2/ü2.txt" in names and data.get("src/f0.txt") == b"hello\n" * 50 and "src/d1/emptydir" in names
+                if vol is not None and not vol_ok:
+                    ev["effect_ok"] = False
+                    ev["detail"] = f"volume sizes {sizes[:4]} for -v {vol}"
         elif cmd == "a":
             before = lib_members(py7zr, arc) if cond == "intact" else None
             with open(os.path.join(wd, "new.txt"), "wb") as f:
@@ -134,7 +155,11 @@ def run_one(case):
                 out = xcwd
             ev["exit"], so, se = cli(args, xcwd)
             ev["detail"] = (so + se)[-200:]
-            if ev["exit"] == 0:
+            if ev["exit"] == 0 and cond == "intact-empty":
+                ev["effect_ok"] = True
+            elif ev["exit"] == 0 and cond == "intact-dirs":
+                ev["effect_ok"] = os.path.isdir(os.path.join(out, "only", "a", "b")) and os.path.isdir(os.path.join(out, "only", "c"))
+            elif ev["exit"] == 0:
                 ok = True
                 for rel in ("f0.txt", "d1/f1.bin", "d1/d2/ü2.txt", "d1/empty"):
                     p = os.path.join(out, "src", rel)
@@ -170,9 +195,10 @@ def run(tier, rep, ev):
     for cmd, conds, opts in (("i", ["absent"], ["none"]),
                              ("c", ["absent", "exists"], ["none", "no-suffix", "vol-digits", "vol-b", "vol-k", "vol-m", "vol-g", "vol-bad-unit", "vol-empty"]),
                              ("a", ["intact", "absent"], ["none"]),
-                             ("l", ["intact", "header-damaged", "data-damaged", "needs-password"], ["none", "verbose"]),
-                             ("x", ["intact", "header-damaged", "data-damaged", "needs-password", "unsupported-method"], ["none", "verbose", "cwd"]),
-                             ("t", ["intact", "header-damaged", "data-damaged", "needs-password", "unsupported-method"], ["none"])):
+                             ("l", ["intact", "intact-empty", "intact-dirs", "header-damaged", "data-damaged", "stored-damaged", "needs-password"], ["none", "verbose"]),
+                             ("x", ["intact", "intact-empty", "intact-dirs", "header-damaged", "data-damaged", "stored-damaged", "needs-password", "unsupported-method"],
+                              ["none", "verbose", "cwd"]),
+                             ("t", ["intact", "intact-empty", "intact-dirs", "header-damaged", "data-damaged", "stored-damaged", "needs-password", "unsupported-method"], ["none"])):
         for c in conds:
             for o in opts:
                 combos.append((cmd, c, o))
